@@ -13,5 +13,7 @@ if ! go build -o /verif/bin/vcheck ./cmd/vcheck 2>/verif/out/build.log; then
   echo "HARNESS-ERROR build failed" >&2
   exit 2
 fi
+# workers inherit the address-space cap: a runaway allocation kills one worker (reported), not the sandbox
+ulimit -v ${VERIF_ULIMIT_KB:-12000000} 2>/dev/null || true
 if [ "$ID" = replay ]; then exec /verif/bin/vcheck replay "$TIER"; fi
 exec /verif/bin/vcheck run "$ID" "$TIER"
